@@ -281,8 +281,10 @@ class CHECK(core.Check):
     def region(self, finding, case):
         """the Lean table `knownCrashSites` (Props/C14.lean) maps (exception class, function) to finding ids"""
         cls, fn, _ = self.run(case)
-        rep = core.Driver(self.ENGINE).run(["crash %s %s" % (cls, fn or "-")])[0]
-        return finding.get("id") in rep.split()
+        cache = self.__dict__.setdefault("_sites", {})
+        if (cls, fn) not in cache:
+            cache[(cls, fn)] = core.Driver(self.ENGINE).run(["crash %s %s" % (cls, fn or "-")])[0].split()
+        return finding.get("id") in cache[(cls, fn)]
 
     def search(self, rng, n, tier):
         for c in self.generate(rng, n, tier):
